@@ -19,6 +19,7 @@ UNIT = {
     'rlimit': 60,
     'verus_args': ['--edition=2024'],
     'vacuity_floor': 3,
+    'rename_idents': {'r#else': 'verif_else'},
     'items': [
         ('@raw', 'pub mod trap { #[derive(Clone, Debug, Eq, PartialEq)] pub struct Condition { pub verif_opaque: u8 } }\npub mod semantics { pub type Result<T = ()> = std::ops::ControlFlow<crate::cf::Divert, T>; }\n'),
         ('@raw', 'pub mod cf {\n' + MOD_HEAD + '    pub use crate::semantics::Result;\n'),
@@ -64,6 +65,7 @@ UNIT = {
                 'r matches ControlFlow::Continue(b) ==> b == (final(env).exit_status.0 == 0) && final(env).verif_log@.last().result is Continue',
                 'r matches ControlFlow::Break(d) ==> final(env).verif_log@.last().result == ControlFlow::<Divert, ()>::Break(d)',
                 'final(env).stack.inner@ =~= old(env).stack.inner@', 'final(env).options == old(env).options',
+                'final(env).exit_status == final(env).verif_log@.last().status_after',
             ])),
         # `!` pipeline
         (PL, ["impl<S: Runtime + 'static> Command<S> for syntax::Pipeline", 'fn execute'], dict(ASYNC, ret='r',
@@ -80,6 +82,38 @@ UNIT = {
                 # the stack is as it was afterwards (the guard of the Condition frame is gone) and the options are untouched
                 'final(env).stack.inner@ =~= old(env).stack.inner@', 'final(env).options == old(env).options',
             ])),
+        # if / elif / else
+        ('@raw', 'pub mod if_cmd {\n    use super::*;\n'),
+        ('yash-semantics/src/command/compound_command/if.rs', ['fn execute'], dict(ASYNC, ret='r',
+            attrs=['#[verifier::loop_isolation(false)]'],
+            token_rewrites=[
+                # `for ElifThen { condition, body } in elifs` = the clauses in order
+                ('for ElifThen { condition , body } in elifs {',
+                 'let mut verif_k: usize = 0;\n'
+                 '    while verif_k < elifs.len()\n'
+                 '        invariant verif_k <= elifs@.len(), env.stack.inner@ =~= old(env).stack.inner@, env.options == old(env).options,\n'
+                 '            extends_runs(env.verif_log@, old(env).verif_log@), env.verif_log@.len() > old(env).verif_log@.len(),\n'
+                 '            forall|j: int| old(env).verif_log@.len() <= j < env.verif_log@.len() ==> failed_condition(#[trigger] env.verif_log@[j], old(env).stack.inner@),\n'
+                 '        decreases elifs@.len() - verif_k,\n'
+                 '    {\n'
+                 '        let ElifThen { condition, body } = &elifs[verif_k]; verif_k += 1;'),
+            ],
+            ensures=[
+                'extends_runs(final(env).verif_log@, old(env).verif_log@)', 'final(env).verif_log@.len() > old(env).verif_log@.len()',
+                # C10: every condition (if and elif alike) runs in an exempt context; C02: the conditions are tried in order until
+                # one holds, and everything that ran before the last run was a condition that did not hold
+                'forall|j: int| old(env).verif_log@.len() <= j < final(env).verif_log@.len() - 1 ==> exempt_run(#[trigger] final(env).verif_log@[j], old(env).stack.inner@)',
+                '({ let n = final(env).verif_log@.len(); let last = final(env).verif_log@[n - 1]; '
+                # the last run is a condition that was interrupted or that did not hold (then nothing else runs: status 0) ...
+                '(exempt_run(last, old(env).stack.inner@) && (last.result is Break ==> r == last.result) && (last.result is Continue ==> r is Continue && final(env).exit_status == ExitStatus(0))) '
+                # ... or the branch chosen by the condition just before it (or the else branch), run with the caller\'s own stack, whose result is the result
+                '|| (last.stack == old(env).stack.inner@ && r == last.result && final(env).exit_status == last.status_after && n >= old(env).verif_log@.len() + 2 '
+                # ... a `then` branch only right after ITS condition held, the else branch only after every condition failed
+                '&& exempt_run(final(env).verif_log@[n - 2], old(env).stack.inner@) && final(env).verif_log@[n - 2].result is Continue '
+                '&& (final(env).verif_log@[n - 2].status_after.0 == 0 || (verif_else matches Some(e) && last.what == e.verif_id)) '
+                '&& (final(env).verif_log@[n - 2].status_after.0 == 0 ==> (final(env).verif_log@[n - 2].what == condition.verif_id && last.what == body.verif_id) || exists|i: int| 0 <= i < elifs@.len() && final(env).verif_log@[n - 2].what == (#[trigger] elifs@[i]).condition.verif_id && last.what == elifs@[i].body.verif_id)) })',
+            ])),
+        ('@raw', '}\n'),
         # one element of an and-or list after the first
         (AO, ['fn execute_conditional_pipeline'], dict(ASYNC, ret='r',
             ensures=[
